@@ -46,7 +46,7 @@ NEAR_PAIRS = _near_pairs()
 
 @st.composite
 def plan_st(draw, tier):
-    cfg = draw(gen.config_st(metrics=gen.SAFE_METRICS, arm_kinds=("int", "str", "float"), min_arms=1, max_arms=5, with_binarizer=False,
+    cfg = draw(gen.config_st(many_arms_ok=True, metrics=gen.SAFE_METRICS, arm_kinds=("int", "str", "float"), min_arms=1, max_arms=5, with_binarizer=False,
                              scale_ok=True, defaults_ok=True))
     if cfg["np"] and cfg["np"][0] == "TreeBandit" and cfg["lp"][0] == "EpsilonGreedy":
         cfg["lp"][1]["epsilon"] = 0
